@@ -450,6 +450,23 @@ class UnitBench:
             "res": [dict(self.last[t]) for t in range(1, self.nt + 1)],
         }
 
+    def stuck(self) -> int:
+        """Calls that are blocked although what they wait for has happened already.  Everything that
+        could wake them is under the control of this harness, so they are blocked for good: logged as
+        timed out."""
+        n = 0
+        for t, task in self.tasks.items():
+            if task is None or task.done() or self.loop.handle_of(task) is not None:
+                continue
+            name = task.get_coro().__name__
+            if name == "_recv" and (self.fed > self.recvd or self.tp.eofseen or self.tp.lost):
+                self.emit(ev="rend", s="A", t=t, res="timeout", off=0, len=0, match=1)
+                n += 1
+            elif name == "_send" and (self.tp.lost or (not self.tp.buf and not self.tp.proto_paused)):
+                self.emit(ev="send", s="A", t=t, res="timeout")
+                n += 1
+        return n
+
     def epilogue(self) -> int:
         """An eager kernel: keeps delivering while the transport reads although nobody receives."""
         if self.tp.is_closing() or self.tp.eofseen:
@@ -521,7 +538,8 @@ def run_schedule(item: dict, cfg: dict | None = None, unit: int = 1) -> dict:
         drift = compare(item["x"], b.proj(), unit)
     # the real classes left the model: let an eager kernel show the consequences at the property level
     flood = b.epilogue() if drift else 0
+    nstuck = b.stuck()
     events = list(b.events)
     b.cleanup()
-    return {"events": events, "params": params(cfg, unit), "drift": drift, "at": at, "flood": flood,
+    return {"events": events, "params": params(cfg, unit), "drift": drift, "at": at, "flood": flood, "stuck": nstuck,
             "errors": b.errors[:3] + [str(e.get("message")) for e in b.loop.errors[:3]]}
